@@ -4,7 +4,7 @@
     that ran over a failure (it may have handled it) is tainted and its value
     is not kept, so nothing has to be recorded for it. *)
 From Coq Require Import List ZArith Bool Arith Lia.
-From MX Require Import Exec.Model Exec.Spec Exec.Basics Exec.SpecMono Exec.Sim Exec.Reads Exec.Cover Exec.Cover2.
+From MX Require Import Exec.Model Exec.Spec Exec.Basics Exec.SpecMono Exec.Masks Exec.Sim Exec.Reads Exec.Cover Exec.Cover2.
 Import ListNotations.
 
 Definition Ctx (st : state) (me : cid) (d : nat) : Prop :=
@@ -54,7 +54,7 @@ Definition sim2_body (f : nat) : Prop :=
   forall st args locs whole rest idx r st' ln me d,
     exec_body f st args locs whole rest idx = (r, st', ln) -> r <> OutOfFuel ->
     Good st -> s_reent st = false -> Ctx st me d ->
-    Post st st' (not_deep r)
+    Post st st' (exists v, r = Val v)
       (forall g r' ds, dr_body g (defs_of st) (input_data st) me args locs rest = (r', ds) -> r' <> OutOfFuel ->
                        Forall (cov_pending st' (nearest_cached st (s_stack st)) me d) ds).
 
@@ -64,11 +64,12 @@ Lemma cov_pending_grow st st' nc me d x :
   cov_pending st nc me d x -> cov_pending st' nc me d x.
 Proof.
   intros (A1 & A2 & A3 & A4) R. unfold cov_pending. destruct nc as [j|]; [|auto].
-  destruct x as [m|c|r|c r]; simpl.
+  destruct x as [m|c|r|c r|]; simpl.
   - intros (E & H). split; [now apply A1|now apply A4].
   - intros E. now apply A1.
   - intros [E|E]; [left; now apply A3|right; now apply R].
   - intros [E|E]; [now left|right; now apply A1].
+  - intros [].
 Qed.
 
 Lemma Forall_cov_grow st st' nc me d ds :
@@ -139,6 +140,32 @@ Lemma top_clean_mono st st' :
   s_stack st' = s_stack st -> s_taint st <= s_taint st' -> top_clean st' -> top_clean st.
 Proof. unfold top_clean. intros -> L H. lia. Qed.
 
+(** an untainted formula on top of the stack: nothing was counted *)
+Lemma MM_clean_eq st st' : MM st st' -> top_clean st' -> s_masks st' = s_masks st.
+Proof.
+  intros ((K & M & _) & T) Hc. unfold top_clean in Hc. rewrite K in Hc.
+  destruct (Nat.eq_dec (s_masks st') (s_masks st)) as [E|E]; [exact E|].
+  assert (L : s_masks st < s_masks st') by lia. apply T in L. lia.
+Qed.
+Lemma MB_clean_eq {A} st st' (r : res A) :
+  MB st st' r -> top_clean st' -> (exists v, r = Val v) -> s_masks st' = s_masks st.
+Proof.
+  intros ((K & M & _) & T) Hc (v & ->). unfold top_clean in Hc. rewrite K in Hc.
+  destruct (Nat.eq_dec (s_masks st') (s_masks st)) as [E|E]; [exact E|].
+  assert (L : s_masks st < s_masks st') by lia. apply T in L. destruct L as [L|(k & L)]; [lia|discriminate].
+Qed.
+Ltac mkc :=
+  try match goal with
+  | MMH : MM ?a ?b, Hc : top_clean ?b |- _ => pose proof (MM_clean_eq _ _ MMH Hc)
+  end;
+  try match goal with
+  | MMH : MB ?a ?b ?r, Hc : top_clean ?b, Hok : exists v, ?r = Val v |- _ =>
+      pose proof (MB_clean_eq _ _ _ MMH Hc Hok)
+  end; mk.
+
+Lemma Good_upd_masks st x : Good st -> Good (upd_masks st x).
+Proof. intros (HI & C & SO). split; [exact HI|]. split; [|exact SO]. constructor; apply C. Qed.
+
 Lemma Post_same st ok (cov : Prop) : Good st -> cov -> Post st st ok cov.
 Proof.
   intros G C. right. split; [exact G|]. split; [apply le_n|]. intros _ _.
@@ -183,6 +210,7 @@ Proof.
   split; [|split; [|split; [|split]]].
   - (* ---------------- expressions ---------------- *)
     intros st args locs line e r st' me d H Hr HG Hre HC.
+    pose proof (masks_expr _ _ _ _ _ _ _ _ H Hr) as MMH.
     destruct e; simpl in H.
     + inversion H; subst. apply Post_same; [exact HG|].
       intros g r' ds Hd _. destruct g; simpl in Hd; inversion Hd; constructor.
@@ -202,7 +230,7 @@ Proof.
           intros g r' ds Hd Hr'. destruct g; [simpl in Hd; inversion Hd; congruence|]. simpl in Hd.
           destruct (dr_expr g (defs_of st) (input_data st) me args locs e1) as [ra d1] eqn:Da.
           assert (Hra : ra <> OutOfFuel) by (intros ->; inversion Hd; congruence).
-          pose proof (align_dr_expr _ _ _ _ _ _ _ _ _ _ A1 ltac:(discriminate) Hok Da Hra) as ->.
+          pose proof (align_dr_expr _ _ _ _ _ _ _ _ _ _ (A1 ltac:(mkc)) ltac:(discriminate) Hok Da Hra) as ->.
           inversion Hd; subst. eapply C1; eauto. }
       destruct (eval_expr f st1 args locs line e2) as [r2 st2] eqn:E2.
       assert (Hr2 : r2 <> OutOfFuel) by (intros ->; inversion H; subst; congruence).
@@ -225,7 +253,7 @@ Proof.
       assert (Hra : ra <> OutOfFuel) by (intros ->; inversion Hd; congruence).
       pose proof (C1 _ _ _ Da Hra) as K1.
       pose proof (Forall_cov_grow _ _ _ _ _ _ W2 S2 K1) as K1'.
-      pose proof (align_dr_expr _ _ _ _ _ _ _ _ _ _ A1 ltac:(discriminate) ltac:(discriminate) Da Hra) as ->.
+      pose proof (align_dr_expr _ _ _ _ _ _ _ _ _ _ (A1 ltac:(mkc)) ltac:(discriminate) ltac:(discriminate) Da Hra) as ->.
       destruct (dr_expr g (defs_of st) (input_data st) me args locs e2) as [rb d2] eqn:Db.
       assert (Hrb : rb <> OutOfFuel) by (intros ->; inversion Hd; congruence).
       pose proof (C2 _ _ _ Db Hrb) as K2.
@@ -253,7 +281,7 @@ Proof.
         destruct (dr_expr g (defs_of st) (input_data st) me args locs e1) as [ra d1] eqn:Da.
         assert (Hra : ra <> OutOfFuel).
         { intros ->. inversion Hd; congruence. }
-        pose proof (align_dr_expr _ _ _ _ _ _ _ _ _ _ A1 Hr1 Hok1 Da Hra) as ->.
+        pose proof (align_dr_expr _ _ _ _ _ _ _ _ _ _ (A1 ltac:(mkc)) Hr1 Hok1 Da Hra) as ->.
         destruct rr as [[z|]|k|]; [contradiction| | |congruence]; inversion Hd; subst; eapply C1; eauto. }
       destruct r1 as [[z|]|k|]; [| | |congruence].
       2:{ apply (Hstop (Val VNone) eq_refl I). now rewrite <- H. }
@@ -278,7 +306,7 @@ Proof.
       assert (Hra : ra <> OutOfFuel) by (intros ->; inversion Hd; congruence).
       pose proof (C1 _ _ _ Da Hra) as K1.
       pose proof (Forall_cov_grow _ _ _ _ _ _ W2 S2 K1) as K1'.
-      pose proof (align_dr_expr _ _ _ _ _ _ _ _ _ _ A1 ltac:(discriminate) ltac:(discriminate) Da Hra) as ->.
+      pose proof (align_dr_expr _ _ _ _ _ _ _ _ _ _ (A1 ltac:(mkc)) ltac:(discriminate) ltac:(discriminate) Da Hra) as ->.
       destruct (dr_expr g (defs_of st) (input_data st) me args locs eb) as [rb d2] eqn:Db.
       assert (Hd' : (rb, d1 ++ d2) = (r', ds)).
       { subst eb. destruct (Z.ltb 0 z); rewrite Db in Hd; exact Hd. }
@@ -293,7 +321,7 @@ Proof.
       (* stopping after the arguments: failed arguments, unknown cells, arguments that do not bind *)
       assert (Hstop : st' = st1 -> (not_deep r -> not_deep r1) ->
                 (forall g r' ds, dr_expr (S g) (defs_of st) (input_data st) me args locs (ECall c args0) = (r', ds) ->
-                   r' <> OutOfFuel -> not_deep r ->
+                   r' <> OutOfFuel -> not_deep r -> top_clean st' ->
                    exists ra, dr_args g (defs_of st) (input_data st) me args locs args0 = (ra, ds) /\ ra <> OutOfFuel) ->
                 Post st st' (not_deep r)
                   (forall g r' ds, dr_expr g (defs_of st) (input_data st) me args locs (ECall c args0) = (r', ds) ->
@@ -303,30 +331,30 @@ Proof.
         destruct (P1 (Hnd Hok) Hcl) as (W1 & S1 & C1).
         split; [exact W1|]. split; [exact S1|].
         intros g r' ds Hd Hr'. destruct g; [simpl in Hd; inversion Hd; congruence|].
-        destruct (Hsh _ _ _ Hd Hr' Hok) as (ra & Da & Hra). eapply C1; eauto. }
+        destruct (Hsh _ _ _ Hd Hr' Hok Hcl) as (ra & Da & Hra). eapply C1; eauto. }
       destruct r1 as [vs|k|]; [| |congruence].
       2:{ apply Hstop; [inversion H; reflexivity|intros Hk E; inversion E; subst; apply Hk; inversion H; reflexivity|].
-          intros g r' ds Hd Hr' Hok. simpl in Hd.
+          intros g r' ds Hd Hr' Hok Hcl. simpl in Hd.
           destruct (dr_args g (defs_of st) (input_data st) me args locs args0) as [ra d1] eqn:Da.
           assert (Hra : ra <> OutOfFuel) by (intros ->; inversion Hd; congruence).
           assert (Hk1 : @Err (list val) k <> Err KDeep).
           { intros E; inversion E; subst. apply Hok. inversion H; reflexivity. }
-          pose proof (align_dr_args _ _ _ _ _ _ _ _ _ _ A1 ltac:(discriminate) Hk1 Da Hra) as ->.
+          pose proof (align_dr_args _ _ _ _ _ _ _ _ _ _ (A1 ltac:(mkc)) ltac:(discriminate) Hk1 Da Hra) as ->.
           inversion Hd; subst. eexists; split; [reflexivity|discriminate]. }
       destruct (lookup_cell (s_cells st) c) as [cl|] eqn:El.
       2:{ apply Hstop; [inversion H; reflexivity|intros _; discriminate|].
-          intros g r' ds Hd Hr' Hok. simpl in Hd.
+          intros g r' ds Hd Hr' Hok Hcl. simpl in Hd.
           destruct (dr_args g (defs_of st) (input_data st) me args locs args0) as [ra d1] eqn:Da.
           assert (Hra : ra <> OutOfFuel) by (intros ->; inversion Hd; congruence).
-          pose proof (align_dr_args _ _ _ _ _ _ _ _ _ _ A1 ltac:(discriminate) ltac:(discriminate) Da Hra) as ->.
+          pose proof (align_dr_args _ _ _ _ _ _ _ _ _ _ (A1 ltac:(mkc)) ltac:(discriminate) ltac:(discriminate) Da Hra) as ->.
           unfold defs_of in Hd; simpl in Hd. rewrite El in Hd.
           inversion Hd; subst. eexists; split; [reflexivity|discriminate]. }
       destruct (bind_pos cl vs) as [k|] eqn:Eb.
       2:{ apply Hstop; [inversion H; reflexivity|intros _; discriminate|].
-          intros g r' ds Hd Hr' Hok. simpl in Hd.
+          intros g r' ds Hd Hr' Hok Hcl. simpl in Hd.
           destruct (dr_args g (defs_of st) (input_data st) me args locs args0) as [ra d1] eqn:Da.
           assert (Hra : ra <> OutOfFuel) by (intros ->; inversion Hd; congruence).
-          pose proof (align_dr_args _ _ _ _ _ _ _ _ _ _ A1 ltac:(discriminate) ltac:(discriminate) Da Hra) as ->.
+          pose proof (align_dr_args _ _ _ _ _ _ _ _ _ _ (A1 ltac:(mkc)) ltac:(discriminate) ltac:(discriminate) Da Hra) as ->.
           unfold defs_of in Hd; simpl in Hd. rewrite El, Eb in Hd.
           inversion Hd; subst. eexists; split; [reflexivity|discriminate]. }
       clear Hstop.
@@ -345,7 +373,7 @@ Proof.
       assert (Hra : ra <> OutOfFuel) by (intros ->; inversion Hd; congruence).
       pose proof (C1 _ _ _ Da Hra) as K1.
       pose proof (Forall_cov_grow _ _ _ _ _ _ W2 S2 K1) as K1'.
-      pose proof (align_dr_args _ _ _ _ _ _ _ _ _ _ A1 ltac:(discriminate) ltac:(discriminate) Da Hra) as ->.
+      pose proof (align_dr_args _ _ _ _ _ _ _ _ _ _ (A1 ltac:(mkc)) ltac:(discriminate) ltac:(discriminate) Da Hra) as ->.
       unfold defs_of in Hd; simpl in Hd. rewrite El, Eb in Hd.
       destruct (dr_node g (s_cells st, s_refs st) (input_data st) (c, k)) as [rb d2] eqn:Db.
       inversion Hd; subst.
@@ -380,6 +408,7 @@ Proof.
       intros g r' ds Hd _. destruct g; simpl in Hd; inversion Hd; constructor.
   - (* ---------------- argument lists ---------------- *)
     intros st args locs line es r st' me d H Hr HG Hre HC.
+    pose proof (masks_args _ _ _ _ _ _ _ _ H Hr) as MMH.
     destruct es as [|e rest]; simpl in H.
     + inversion H; subst. apply Post_same; [exact HG|].
       intros g r' ds Hd _. destruct g; simpl in Hd; inversion Hd; constructor.
@@ -396,7 +425,7 @@ Proof.
           intros g r' ds Hd Hr'. destruct g; [simpl in Hd; inversion Hd; congruence|]. simpl in Hd.
           destruct (dr_expr g (defs_of st) (input_data st) me args locs e) as [ra d1] eqn:Da.
           assert (Hra : ra <> OutOfFuel) by (intros ->; inversion Hd; congruence).
-          pose proof (align_dr_expr _ _ _ _ _ _ _ _ _ _ A1 ltac:(discriminate) Hok1 Da Hra) as ->.
+          pose proof (align_dr_expr _ _ _ _ _ _ _ _ _ _ (A1 ltac:(mkc)) ltac:(discriminate) Hok1 Da Hra) as ->.
           inversion Hd; subst. eapply C1; eauto. }
       destruct (eval_args f st1 args locs line rest) as [r2 st2] eqn:E2.
       assert (Hr2 : r2 <> OutOfFuel) by (intros ->; inversion H; subst; congruence).
@@ -419,7 +448,7 @@ Proof.
       assert (Hra : ra <> OutOfFuel) by (intros ->; inversion Hd; congruence).
       pose proof (C1 _ _ _ Da Hra) as K1.
       pose proof (Forall_cov_grow _ _ _ _ _ _ W2 S2 K1) as K1'.
-      pose proof (align_dr_expr _ _ _ _ _ _ _ _ _ _ A1 ltac:(discriminate) ltac:(discriminate) Da Hra) as ->.
+      pose proof (align_dr_expr _ _ _ _ _ _ _ _ _ _ (A1 ltac:(mkc)) ltac:(discriminate) ltac:(discriminate) Da Hra) as ->.
       destruct (dr_args g (defs_of st) (input_data st) me args locs rest) as [rb d2] eqn:Db.
       assert (Hrb : rb <> OutOfFuel) by (intros ->; inversion Hd; congruence).
       pose proof (C2 _ _ _ Db Hrb) as K2.
@@ -531,10 +560,10 @@ Proof.
     { unfold tainted in Et. apply Nat.leb_gt in Et. exact Et. }
     assert (Htn : s_taint st2 <= List.length (s_stack st)).
     { unfold top_clean in Hclean2. rewrite K2 in Hclean2. simpl in Hclean2. lia. }
-    destruct (PB ltac:(discriminate) Hclean2) as (W2 & RS2 & CB).
+    destruct (PB ltac:(eexists; reflexivity) Hclean2) as (W2 & RS2 & CB).
     rewrite Hnc1 in CB. change (defs_of st1) with (defs_of st) in CB.
     change (input_data st1) with (input_data st) in CB.
-    destruct A2 as (gb & A2).
+    specialize (A2 (body_clean_masks _ _ _ _ _ _ _ _ _ _ Eb Et)). destruct A2 as (gb & A2).
     destruct (dr_body gb (defs_of st) (input_data st) (fst i) (snd i) [] (cl_body cl)) as [rbb dsb] eqn:Dbb.
     pose proof (dr_body_fst _ _ _ _ _ _ _ _ _ Dbb) as Hfst. rewrite A2 in Hfst. subst rbb.
     pose proof (CB _ _ _ Dbb ltac:(discriminate)) as CovB.
@@ -614,10 +643,11 @@ Proof.
         -- exact Hx.
   - (* ---------------- statements ---------------- *)
     intros st args locs whole rest idx r st' ln me d H Hr HG Hre HC.
+    pose proof (masks_body _ _ _ _ _ _ _ _ _ _ H Hr) as MMH.
     destruct rest as [|s more]; simpl in H.
     + inversion H; subst. apply Post_same; [exact HG|].
       intros g r' ds Hd _. destruct g; simpl in Hd; inversion Hd; constructor.
-    + destruct s as [e|e h].
+    + destruct s as [e|e h|e fc].
       * (* SAssign *)
         destruct (eval_expr f st args locs (stmt_line whole idx) e) as [r1 st1] eqn:E1.
         assert (Hr1 : r1 <> OutOfFuel) by (intros ->; inversion H; subst; congruence).
@@ -625,13 +655,7 @@ Proof.
         pose proof (IHe _ _ _ _ _ _ _ me d E1 Hr1 HG Hre HC) as P1.
         destruct r1 as [v|k|]; [| |congruence].
         2:{ inversion H; subst. destruct P1 as [P1|(G1 & T1 & P1)]; [now left|right].
-            split; [exact G1|]. split; [exact T1|]. intros Hok Hc. destruct (P1 Hok Hc) as (W1 & S1 & C1).
-            split; [exact W1|]. split; [exact S1|].
-            intros g r' ds Hd Hr'. destruct g; [simpl in Hd; inversion Hd; congruence|]. simpl in Hd.
-            destruct (dr_expr g (defs_of st) (input_data st) me args locs e) as [ra d1] eqn:Da.
-            assert (Hra : ra <> OutOfFuel) by (intros ->; inversion Hd; congruence).
-            pose proof (align_dr_expr _ _ _ _ _ _ _ _ _ _ A1 ltac:(discriminate) Hok Da Hra) as ->.
-            inversion Hd; subst. eapply C1; eauto. }
+            split; [exact G1|]. split; [exact T1|]. intros Hok Hc. destruct Hok as (? & Hok); discriminate. }
         destruct (s_reent st1) eqn:R1; [left; eapply MB; eauto|].
         destruct P1 as [P1|(G1 & T1 & P1)]; [congruence|].
         destruct (SB _ _ _ _ _ _ _ _ _ H Hr I1) as (I2 & F2 & A2).
@@ -647,7 +671,7 @@ Proof.
         assert (Hra : ra <> OutOfFuel) by (intros ->; inversion Hd; congruence).
         pose proof (C1 _ _ _ Da Hra) as K1.
         pose proof (Forall_cov_grow _ _ _ _ _ _ W2 S2 K1) as K1'.
-        pose proof (align_dr_expr _ _ _ _ _ _ _ _ _ _ A1 ltac:(discriminate) ltac:(discriminate) Da Hra) as ->.
+        pose proof (align_dr_expr _ _ _ _ _ _ _ _ _ _ (A1 ltac:(mkc)) ltac:(discriminate) ltac:(discriminate) Da Hra) as ->.
         destruct (dr_body g (defs_of st) (input_data st) me args (locs ++ [v]) more) as [rb d2] eqn:Db.
         inversion Hd; subst.
         apply Forall_app. split; [exact K1'|]. eapply C2; eauto.
@@ -672,19 +696,13 @@ Proof.
            destruct (dr_expr g (defs_of st) (input_data st) me args locs e) as [ra d1] eqn:Da.
            assert (Hra : ra <> OutOfFuel) by (intros ->; inversion Hd; congruence).
            pose proof (Forall_cov_grow _ _ _ _ _ _ W2 S2 (C1 _ _ _ Da Hra)) as K1'.
-           pose proof (align_dr_expr _ _ _ _ _ _ _ _ _ _ A1 ltac:(discriminate) ltac:(discriminate) Da Hra) as ->.
+           pose proof (align_dr_expr _ _ _ _ _ _ _ _ _ _ (A1 ltac:(mkc)) ltac:(discriminate) ltac:(discriminate) Da Hra) as ->.
            destruct (dr_body g (defs_of st) (input_data st) me args (locs ++ [v]) more) as [rb d2] eqn:Db.
            inversion Hd; subst.
            apply Forall_app. split; [exact K1'|]. eapply C2; eauto.
         -- destruct (catchable k) eqn:Ek.
            2:{ inversion H; subst. destruct P1 as [P1|(G1 & T1 & P1)]; [now left|right].
-               split; [exact G1|]. split; [exact T1|]. intros Hok Hc. destruct (P1 Hok Hc) as (W1 & S1 & C1).
-               split; [exact W1|]. split; [exact S1|].
-               intros g r' ds Hd Hr'. destruct g; [simpl in Hd; inversion Hd; congruence|]. simpl in Hd.
-               destruct (dr_expr g (defs_of st) (input_data st) me args locs e) as [ra d1] eqn:Da.
-               assert (Hra : ra <> OutOfFuel) by (intros ->; inversion Hd; congruence).
-               pose proof (align_dr_expr _ _ _ _ _ _ _ _ _ _ A1 ltac:(discriminate) Hok Da Hra) as ->.
-               rewrite Ek in Hd. inversion Hd; subst. eapply C1; eauto. }
+               split; [exact G1|]. split; [exact T1|]. intros Hok Hc. destruct Hok as (? & Hok); discriminate. }
            assert (Hk1 : @Err val k <> Err KDeep) by (intros E; inversion E; subst; discriminate).
            set (st1' := upd_rolled st1 []) in *.
            destruct (eval_expr f st1' args locs (stmt_line whole idx + 3) h) as [r2 st2] eqn:E2.
@@ -709,22 +727,7 @@ Proof.
            destruct r2 as [v|k2|]; [| |congruence].
            2:{ inversion H; subst. destruct P2 as [P2|(G2 & T2 & P2)]; [now left|right].
                split; [exact G2|]. split; [simpl in T2; lia|]. intros Hok Hc.
-               destruct (P2 Hok Hc) as (W2 & S2 & C2).
-               assert (Hc1 : top_clean st1) by (eapply top_clean_mono; [exact (proj1 (proj2 F12))|exact T2|exact Hc]).
-               destruct (P1 Hk1 Hc1) as (W1 & S1 & C1).
-               split; [eapply Grow_trans; [exact W1|exact W2]|]. split; [eapply incl_tran; [exact S1|exact S2]|].
-               rewrite D1, Q1, Hnc1 in C2.
-               intros g r' ds Hd Hr'. destruct g; [simpl in Hd; inversion Hd; congruence|]. simpl in Hd.
-               destruct (dr_expr g (defs_of st) (input_data st) me args locs e) as [ra d1] eqn:Da.
-               assert (Hra : ra <> OutOfFuel) by (intros ->; inversion Hd; congruence).
-               pose proof (Forall_cov_grow _ _ _ _ _ _ W2 S2 (C1 _ _ _ Da Hra)) as K1'.
-               pose proof (align_dr_expr _ _ _ _ _ _ _ _ _ _ A1 ltac:(discriminate) Hk1 Da Hra) as ->.
-               rewrite Ek in Hd.
-               destruct (dr_expr g (defs_of st) (input_data st) me args locs h) as [rh d2] eqn:Dh.
-               assert (Hrh : rh <> OutOfFuel) by (intros ->; inversion Hd; congruence).
-               pose proof (align_dr_expr _ _ _ _ _ _ _ _ _ _ A2 ltac:(discriminate) Hok Dh Hrh) as ->.
-               inversion Hd; subst.
-               apply Forall_app. split; [exact K1'|]. eapply C2; eauto. }
+               destruct Hok as (? & Hok); discriminate. }
            destruct (s_reent st2) eqn:R2; [left; eapply MB; eauto|].
            destruct P2 as [P2|(G2 & T2 & P2)]; [congruence|].
            assert (F02 : frame st st2) by (eapply frame_trans; eauto).
@@ -746,14 +749,87 @@ Proof.
            assert (K1' : Forall (cov_pending st' (nearest_cached st (s_stack st)) me d) d1).
            { eapply Forall_cov_grow; [exact W3|exact S3|].
              eapply Forall_cov_grow; [exact W2|exact S2|]. exact (C1 _ _ _ Da Hra). }
-           pose proof (align_dr_expr _ _ _ _ _ _ _ _ _ _ A1 ltac:(discriminate) Hk1 Da Hra) as ->.
+           pose proof (align_dr_expr _ _ _ _ _ _ _ _ _ _ (A1 ltac:(mkc)) ltac:(discriminate) Hk1 Da Hra) as ->.
            rewrite Ek in Hd.
            destruct (dr_expr g (defs_of st) (input_data st) me args locs h) as [rh d2] eqn:Dh.
            assert (Hrh : rh <> OutOfFuel) by (intros ->; inversion Hd; congruence).
            assert (K2' : Forall (cov_pending st' (nearest_cached st (s_stack st)) me d) d2).
            { eapply Forall_cov_grow; [exact W3|exact S3|]. eapply C2; eauto. }
-           pose proof (align_dr_expr _ _ _ _ _ _ _ _ _ _ A2 ltac:(discriminate) ltac:(discriminate) Dh Hrh) as ->.
+           pose proof (align_dr_expr _ _ _ _ _ _ _ _ _ _ (A2 ltac:(mkc)) ltac:(discriminate) ltac:(discriminate) Dh Hrh) as ->.
            destruct (dr_body g (defs_of st) (input_data st) me args (locs ++ [v]) more) as [rb d3] eqn:Db.
            inversion Hd; subst.
            apply Forall_app. split; [exact K1'|]. apply Forall_app. split; [exact K2'|]. eapply C3; eauto.
+      * (* SFin *)
+        destruct (eval_expr f st args locs (stmt_line whole idx + 1) e) as [r1 st1] eqn:E1.
+        assert (Hr1 : r1 <> OutOfFuel) by (intros ->; inversion H; subst; congruence).
+        destruct (SE _ _ _ _ _ _ _ E1 Hr1 (proj1 HG)) as (I1 & F1 & A1).
+        pose proof (IHe _ _ _ _ _ _ _ me d E1 Hr1 HG Hre HC) as P1.
+        destruct (frame_defs _ _ F1) as (D1 & Q1).
+        destruct r1 as [v|k|]; [| |congruence].
+        -- destruct (eval_expr f st1 args locs (stmt_line whole idx + 3) fc) as [r2 st2] eqn:E2.
+           assert (Hr2 : r2 <> OutOfFuel) by (intros ->; inversion H; subst; congruence).
+           assert (Hmono2 : s_reent st2 = true -> s_reent st' = true).
+           { intros X. destruct r2 as [v2|k2|]; [eapply MB; eauto|inversion H; subst; exact X|congruence]. }
+           destruct (s_reent st1) eqn:R1.
+           { left. apply Hmono2. eapply ME; [exact E2|exact R1]. }
+           destruct P1 as [P1|(G1 & T1 & P1)]; [congruence|].
+           destruct (SE _ _ _ _ _ _ _ E2 Hr2 I1) as (I2 & F2 & A2).
+           pose proof (IHe _ _ _ _ _ _ _ me d E2 Hr2 G1 R1 (Ctx_frame _ _ _ _ F1 HC)) as P2.
+           rewrite D1, Q1 in A2.
+           destruct r2 as [w|k2|]; [| |congruence].
+           2:{ inversion H; subst. destruct P2 as [P2|(G2 & T2 & P2)]; [now left|right].
+               split; [exact G2|]. split; [lia|]. intros Hok Hc. destruct Hok as (? & Hok); discriminate. }
+           destruct (s_reent st2) eqn:R2; [left; eapply MB; eauto|].
+           destruct P2 as [P2|(G2 & T2 & P2)]; [congruence|].
+           assert (F02 : frame st st2) by (eapply frame_trans; eauto).
+           destruct (SB _ _ _ _ _ _ _ _ _ H Hr I2) as (I3 & F3 & A3).
+           pose proof (IHb _ _ _ _ _ _ _ _ _ me d H Hr G2 R2 (Ctx_frame _ _ _ _ F02 HC)) as P3.
+           destruct P3 as [P3|(G3 & T3 & P3)]; [now left|right]. split; [exact G3|]. split; [lia|].
+           intros Hok Hc. destruct (P3 Hok Hc) as (W3 & S3 & C3).
+           assert (Hc2 : top_clean st2) by (eapply top_clean_mono; [exact (proj1 (proj2 F3))|exact T3|exact Hc]).
+           destruct (P2 ltac:(discriminate) Hc2) as (W2 & S2 & C2).
+           assert (Hc1 : top_clean st1) by (eapply top_clean_mono; [exact (proj1 (proj2 F2))|exact T2|exact Hc2]).
+           destruct (P1 ltac:(discriminate) Hc1) as (W1 & S1 & C1).
+           split; [eapply Grow_trans; [exact W1|eapply Grow_trans; [exact W2|exact W3]]|].
+           split; [eapply incl_tran; [exact S1|eapply incl_tran; [exact S2|exact S3]]|].
+           destruct (frame_defs _ _ F02) as (D2 & Q2).
+           rewrite D2, Q2, (nc_frame _ _ F02) in C3. rewrite D1, Q1, (nc_frame _ _ F1) in C2.
+           intros g r' ds Hd Hr'. destruct g; [simpl in Hd; inversion Hd; congruence|]. simpl in Hd.
+           destruct (dr_expr g (defs_of st) (input_data st) me args locs e) as [ra d1] eqn:Da.
+           assert (Hra : ra <> OutOfFuel) by (intros ->; inversion Hd; congruence).
+           assert (K1' : Forall (cov_pending st' (nearest_cached st (s_stack st)) me d) d1).
+           { eapply Forall_cov_grow; [exact W3|exact S3|].
+             eapply Forall_cov_grow; [exact W2|exact S2|]. exact (C1 _ _ _ Da Hra). }
+           pose proof (align_dr_expr _ _ _ _ _ _ _ _ _ _ (A1 ltac:(mkc)) ltac:(discriminate) ltac:(discriminate) Da Hra) as ->.
+           destruct (dr_expr g (defs_of st) (input_data st) me args locs fc) as [rh d2] eqn:Dh.
+           assert (Hrh : rh <> OutOfFuel) by (intros ->; inversion Hd; congruence).
+           assert (K2' : Forall (cov_pending st' (nearest_cached st (s_stack st)) me d) d2).
+           { eapply Forall_cov_grow; [exact W3|exact S3|]. eapply C2; eauto. }
+           pose proof (align_dr_expr _ _ _ _ _ _ _ _ _ _ (A2 ltac:(mkc)) ltac:(discriminate) ltac:(discriminate) Dh Hrh) as ->.
+           destruct (dr_body g (defs_of st) (input_data st) me args (locs ++ [v]) more) as [rb d3] eqn:Db.
+           inversion Hd; subst.
+           apply Forall_app. split; [exact K1'|]. apply Forall_app. split; [exact K2'|]. eapply C3; eauto.
+        -- set (st1' := upd_rolled st1 []) in *.
+           destruct (eval_expr f st1' args locs (stmt_line whole idx + 3) fc) as [r2 st2] eqn:E2.
+           assert (Hr2 : r2 <> OutOfFuel) by (intros ->; inversion H; subst; congruence).
+           destruct (s_reent st1) eqn:R1.
+           { left. pose proof (ME _ _ _ _ _ _ _ E2 R1) as X.
+             destruct r2 as [w|k2|]; [inversion H; subst; exact X| |congruence].
+             inversion H; subst. destruct (ekind_eqb k KDeep); exact X. }
+           destruct P1 as [P1|(G1 & T1 & P1)]; [congruence|].
+           assert (G1' : Good st1') by (apply Good_upd_rolled; exact G1).
+           assert (HC1 : Ctx st1' me d) by exact (Ctx_frame _ _ _ _ F1 HC).
+           assert (R1' : s_reent st1' = false) by exact R1.
+           pose proof (IHe _ _ _ _ _ _ _ me d E2 Hr2 G1' R1' HC1) as P2.
+           change (s_taint st1') with (s_taint st1) in P2.
+           destruct P2 as [P2|(G2 & T2 & P2)].
+           { left. destruct r2 as [w|k2|]; [inversion H; subst; exact P2| |congruence].
+             inversion H; subst. destruct (ekind_eqb k KDeep); exact P2. }
+           right.
+           destruct r2 as [w|k2|]; [| |congruence]; inversion H; subst.
+           ++ split; [apply Good_upd_rolled; exact G2|]. split; [subst st1'; simpl in *; lia|].
+              intros Hok Hc. destruct Hok as (? & Hok); discriminate.
+           ++ split; [destruct (ekind_eqb k KDeep); [apply Good_upd_masks|]; exact G2|].
+              split; [subst st1'; destruct (ekind_eqb k KDeep); simpl in *; lia|].
+              intros Hok Hc. destruct Hok as (? & Hok); discriminate.
 Qed.
